@@ -75,6 +75,18 @@ def jsonOf (fs : List FNode) : String :=
   | none => "invalid-utf8"
   | some cts => hexOf (String.ofList (Json.encodeRoots cts)).toUTF8.toList
 
+partial def showCT : Json.CT → String
+  | .mk v ks => "(" ++ hexOf (String.ofList v).toUTF8.toList ++ String.join (ks.map showCT) ++ ")"
+
+/-- read a JSON stream (bytes) with the model's reader: the forest it denotes, or why not -/
+def jsonRead (b : Bytes) : String :=
+  match charsOf b with
+  | none => "invalid-utf8"
+  | some cs =>
+    match (Json.decodeStream cs).bind Json.readAll with
+    | none => "rejected"
+    | some ts => if ts.isEmpty then "_" else String.join (ts.map showCT)
+
 def treeOf (s : String) : Option T :=
   match parseTree s.toList with
   | some (t, []) => some t
